@@ -687,7 +687,9 @@ def check_C19(code, version, env):
 def _pep8_configs():
     from parso.python.pep8 import PEP8NormalizerConfig
     return [('default', None), ('tab', PEP8NormalizerConfig(indentation='\t')),
-            ('two40', PEP8NormalizerConfig(indentation='  ', max_characters=40))]
+            ('two40', PEP8NormalizerConfig(indentation='  ', max_characters=40)),
+            # a limit the small scope can exceed: the line-length logic (E501 and its long-comment exception) is reached
+            ('max3', PEP8NormalizerConfig(max_characters=3))]
 
 
 def _issue_key(i):
